@@ -6,6 +6,7 @@ mod queue;
 mod queue_conc;
 mod queue_timed;
 mod driver;
+mod net;
 
 fn main() {
     let args: Vec<String> = std::env::args().collect();
@@ -25,6 +26,13 @@ fn main() {
         "queue_timed" => queue_timed::run(&a),
         "driver" => driver::run(&a),
         "driver_conc" => driver::run_conc(&a),
+        "net_framed" => net::run_framed(&a),
+        "net_tcp" => net::run_tcp(&a),
+        "net_udp" => net::run_udp(&a),
+        "net_ws" => net::run_ws(&a),
+        "net_conc" => net::run_conc(&a),
+        "net_limits" => net::run_limits(&a),
+        "net_life" => net::run_life(&a),
         other => {
             eprintln!("unknown core {}", other);
             std::process::exit(2);
